@@ -8,7 +8,7 @@ mutual
     have static text, stored lengths and hashes are the computed ones -/
 def GWf (cfg : Cfg) (I : Interner) : Green → Prop
   | .tok _ k none l => ∃ st, cfg.staticText k = some st ∧ l = blen st
-  | .tok _ _ (some key) l => ∃ s, I.resolve key = some s ∧ l = blen s
+  | .tok _ k (some key) l => cfg.staticText k = none ∧ ∃ s, I.resolve key = some s ∧ l = blen s
   | .node _ _ l h cs => l = sumLen cs ∧ h = cfg.H cs ∧ GWfL cfg I cs
 def GWfL (cfg : Cfg) (I : Interner) : List Green → Prop
   | [] => True
@@ -33,8 +33,8 @@ theorem GWf_mono {cfg : Cfg} {I J : Interner} (hp : I.strs <+: J.strs) :
   | .tok _ _ none _, h => by simpa [GWf] using h
   | .tok _ _ (some key) _, h => by
     simp only [GWf] at h ⊢
-    obtain ⟨s, hs, hl⟩ := h
-    exact ⟨s, resolve_mono hp hs, hl⟩
+    obtain ⟨hn, s, hs, hl⟩ := h
+    exact ⟨hn, s, resolve_mono hp hs, hl⟩
   | .node _ _ _ _ cs, h => by
     simp only [GWf] at h ⊢
     exact ⟨h.1, h.2.1, GWfL_mono hp cs h.2.2⟩
@@ -54,7 +54,7 @@ theorem resolve_of_GWf {cfg : Cfg} {I : Interner} :
     exact ⟨.tok k st, by simp [resolveG, hs], by simp [Green.len, Tree.text, hl]⟩
   | .tok _ k (some key) l, h => by
     simp only [GWf] at h
-    obtain ⟨s, hs, hl⟩ := h
+    obtain ⟨_, s, hs, hl⟩ := h
     exact ⟨.tok k s, by simp [resolveG, hs], by simp [Green.len, Tree.text, hl]⟩
   | .node _ k l hh cs, h => by
     simp only [GWf] at h
